@@ -295,7 +295,7 @@ def check(ctx, rep):
                 if a == want:
                     return True
                 # yield_exception(None): the exception being handled is used
-                return none_given and isinstance(a, tuple) and a[0] == "sub" and isinstance(a[1], tuple) and a[1][0] == "call" and q.term_name(a[1][1]) == "exc_info"
+                return none_given and q.exc_info_item(a)
             ok = bool(sets) and all(arg_ok(e.d["args"][0]) for e in sets if e.d["args"]) and (q.call_name(sets[0]) == "set_result") == (mname == "yield_result")
             rep.ob("R-FIRSTWINS", "PollDescriptor.%s sets the given outcome on its own future" % mname, ok, "calls %s" % [("%s(%s)" % (fmt(e.d["func"]), ", ".join(fmt(a) for a in e.d["args"]))) for e in sets], where_of(m), trace_of(p))
     FL = proto(ctx).LOCK
